@@ -121,11 +121,11 @@ def wtree(v):
 def both(cases):
     """cases: (schema id, json text) -> (go verdict, go stable flag, model verdict)"""
     lines = ["tj schema %s %s" % (w(s), w(d)) for s, d in cases]
-    go = [parse_wire(x) for x in run_go(lines)]
+    go = [parse_wire(x) for x in run_go(lines, shards=16, min_shard=64)]
     ml = []
     for (s, d), g in zip(cases, go):
         ml.append("tj schema %s %s" % (w(s), wtree(g[0])) if len(g) >= 2 else "tj bad")
-    mo = [parse_wire(x) for x in run_oracle(ml)]
+    mo = [parse_wire(x) for x in run_oracle(ml, shards=16, min_shard=64)]
     out = []
     for g, m in zip(go, mo):
         gv = g[1] if len(g) >= 2 else [b"notjson"]
@@ -176,7 +176,7 @@ def run_all(c, quick, rich_dir):
             srcs.append((os.path.relpath(f, REPO) if f.startswith(REPO) else os.path.basename(f), j))
     rng = c.rng
     cases = [(n, "source", j["$schema"], json.dumps(j).encode(), j) for n, j in srcs]
-    nvar = 1200 if quick else 120000
+    nvar = 2500 if quick else 120000
     for _ in range(nvar):
         n, j = rng.choice(srcs)
         kind, j2 = vary(rng, j)
